@@ -179,10 +179,7 @@ def _check_len0_reader(fn, p, rd):
     val = unmut(rd.d["ret"])
     ok = False
     if st:
-        for d in p.decisions(st[0][0].seq):
-            c = unmut(d.d["cond"])
-            if d.d["how"] == "if" and c[0] == "bin" and c[1] == "==" and {c[2], c[3]} == {val, C(0)} and d.d["outcome"] is False:
-                ok = True
+        ok = knows(p, ("ne", val, 0), st[0][0].seq) is not None
     return [Ob("R-LEN0", fn, "decode: length stored only after `len == 0` was refuted", ok, "decisions before the store to .length", rd.loc())]
 
 
@@ -193,10 +190,9 @@ def r_len0_err(ctx):
         fa = ctx.fa(f)
         n = 0
         for p in fa.paths:
-            for d in p.decisions():
-                c = unmut(d.d["cond"])
-                if d.d["how"] == "if" and c[0] == "bin" and c[1] == "==" and C(0) in (c[2], c[3]) and d.d["outcome"] is True:
-                    other = c[3] if c[2] == C(0) else c[2]
+            for fct, d in path_facts(p):
+                if fct[0] == "eq" and fct[2] == 0:
+                    other = fct[1]
                     stored_len = set()
                     for q in fa.paths:
                         for ev_ in q.events:
@@ -373,10 +369,7 @@ def r_cols_writer(ctx):
             ent = elems[2][0]
             ok0 = False
             if ent is not None:
-                for d in p.decisions(lenw.seq):
-                    c = unmut(d.d["cond"])
-                    if d.d["how"] == "if" and c[0] == "bin" and c[1] == "==" and {c[2], c[3]} == {("f", ent, "length"), C(0)} and d.d["outcome"] is False:
-                        ok0 = True
+                ok0 = knows(p, ("ne", ("f", ent, "length"), 0), lenw.seq) is not None
             obs.append(Ob("R-LEN0", fn, "encode: length emitted only after `entry.length == 0` was refuted", ok0, "decisions before the length write", lenw.loc()))
             # R-OFFRULE writer
             ent, idx = elems[3]
